@@ -44,7 +44,7 @@ ASSUMPTIONS = [
 REQUIRED_MONITORS = {
     "quick": {
         "dispatch_equals_sent": 500000, "exhaustive_chunkings": 500000, "outgoing_bytes": 3000, "csm_gate": 50000, "abort_and_close": 100000,
-        "oversize_abort": 8, "elective_sig_option_ignored": 10000, "critical_sig_option_abort": 10000, "ping_pong": 50000, "empty_ignored": 50000,
+        "oversize_abort": 8, "elective_sig_option_ignored": 10000, "critical_sig_option_abort": 10000, "ping_pong": 20000, "empty_ignored": 15000,
         "release_abort_fail_pending": 1000, "e2e_server": 1000, "e2e_outgoing_request": 1000, "no_escape": 500000, "own_csm": 2,
     },
     "thorough": {
@@ -648,7 +648,8 @@ def judge(env, rig, items, exp, case, chunks, section):
             if extras and not stray:
                 rep.count("dispatch_after_peer_release_or_abort")
             errs = [e for e in rig.tm.errors if e is not None]
-            rep.count("peerclose_error_signalled" if errs else "peerclose_no_error_signalled")
+            closer = items[exp.stop_i]
+            rep.count("peerclose_error_signalled" if errs else ("peerclose_no_error_signalled" + ("_closer_has_elective_%s_option" % closer.elective if closer.elective else "") + ("_own_abort" if aborts else "") + ("_after_elective_%s_option" % exp.elective if exp.elective and not closer.elective else "")))
             if exp.pongs:
                 rep.monitor("ping_pong")
             if pongs[: len(exp.pongs)] != exp.pongs and rig.escape is None and not early:
